@@ -521,9 +521,16 @@ def _check_est(case, ctx):
     if case["as_array"]:
         ctx.label("est:seq_as_ndarray")
 
+    # the normalisation flag as the caller has it: a Python bool, or a truthy
+    # / falsy value from a parameter grid (numpy bool, int).  Whatever the
+    # library makes of it, sequence and estimator must agree (est_exact).
+    flag_kind = ["bool", "bool", "np.bool_", "int"][(root + N + K) % 4]
+    norm_flag = {"bool": bool, "np.bool_": np.bool_, "int": int}[flag_kind](
+        case["normalize"])
+    ctx.label("est:normalize_flag=" + flag_kind)
     with _tagged(tags):
         root_seq = RootSequence(root_index=root, size=N)
-        useq = _user_seq(kind, root_seq, case["n_cs"], case["normalize"])
+        useq = _user_seq(kind, root_seq, case["n_cs"], norm_flag)
         r0 = np.asarray(useq.seq_array())
     h0 = _taps(case["chan"], nrr)
     H0_full = np.fft.fft(h0, m * N, axis=1)
@@ -533,7 +540,7 @@ def _check_est(case, ctx):
         n_u = (case["n_cs"] + o["dshift"]) % D
         with _tagged(tags):
             ru = np.asarray(_user_seq(kind, root_seq, n_u,
-                                      case["normalize"]).seq_array())
+                                      norm_flag).seq_array())
         hu = _taps(o, nrr)
         Hu_full = np.fft.fft(hu, m * N, axis=1)
         Y = Y + Hu_full[:, ::m] * ru[np.newaxis, :]
@@ -548,10 +555,12 @@ def _check_est(case, ctx):
               "the root sequence no longer has unit amplitude after user "
               "sequences were derived from it (amplitudes %.6g .. %.6g)" %
               (float(root_amp.min()), float(root_amp.max())), tags)
-    want_amp = 1.0 / math.sqrt(N) if case["normalize"] else 1.0
-    ctx.close("user_amplitude", float(np.max(np.abs(np.abs(r0) - want_amp))),
-              1e-12, "user sequence amplitude %.6g, documented %.6g" %
-              (float(np.abs(r0).max()), want_amp), tags)
+    if flag_kind == "bool":
+        want_amp = 1.0 / math.sqrt(N) if case["normalize"] else 1.0
+        ctx.close("user_amplitude",
+                  float(np.max(np.abs(np.abs(r0) - want_amp))), 1e-12,
+                  "user sequence amplitude %.6g, documented %.6g" %
+                  (float(np.abs(r0).max()), want_amp), tags)
 
     with _tagged(tags):
         ref = r0 if case["as_array"] else useq
@@ -560,6 +569,14 @@ def _check_est(case, ctx):
         else:
             est = CazacBasedChannelEstimator(ref, size_multiplier=mult)
         Yin = np.ascontiguousarray(Y[0] if nr == 0 else Y)
+        if (root + N) % 3 == 0 and K + 1 < W:
+            # the SAME estimator object served another observation before,
+            # keeping MORE taps (K shrinks from call to call)
+            ctx.label("est:estimator_reused_with_more_taps_before")
+            rsw = np.random.RandomState(root * 7919 + N)
+            Yw = (rsw.randn(*Yin.shape) + 1j * rsw.randn(*Yin.shape)) * \
+                float(np.max(np.abs(Yin)) + 1.0)
+            est.estimate_channel_freq_domain(Yw, W - 1)
         out = np.asarray(est.estimate_channel_freq_domain(Yin, K))
     want = H0_full[0] if nr == 0 else H0_full
     if out.shape != want.shape:
